@@ -304,6 +304,28 @@ M("c19-free-leaks-buf", "C19", "printbuf.c",
 M("c19-benign-rewrite", "C19", "printbuf.c",
   "\tif (p->size <= p->bpos + size + 1)", "\tif (!(p->size > p->bpos + size + 1))", expect="silent")
 
+# ---- C11 -------------------------------------------------------------------------------------
+M("c11-free-before-malloc", "C11", "json_object.c",
+  "\t\tdstbuf = (char *)malloc(len + 1);\n\t\tif (dstbuf == NULL)\n\t\t\treturn 0;\n\t\tif (JC_STRING(jso)->len < 0)\n\t\t\tfree(JC_STRING(jso)->c_string.pdata);",
+  "\t\tif (JC_STRING(jso)->len < 0)\n\t\t\tfree(JC_STRING(jso)->c_string.pdata);\n\t\tdstbuf = (char *)malloc(len + 1);\n\t\tif (dstbuf == NULL)\n\t\t\treturn 0;",
+  needle="C11.R4")
+M("c11-no-free-old", "C11", "json_object.c",
+  "\t\tif (JC_STRING(jso)->len < 0)\n\t\t\tfree(JC_STRING(jso)->c_string.pdata);\n\t\tJC_STRING(jso)->c_string.pdata = dstbuf;",
+  "\t\tJC_STRING(jso)->c_string.pdata = dstbuf;", needle="C11.R3")
+M("c11-malloc-len", "C11", "json_object.c",
+  "\t\tdstbuf = (char *)malloc(len + 1);", "\t\tdstbuf = (char *)malloc(len);", needle="C11.R5")
+M("c11-pdata-without-check", "C11", "json_object.c",
+  "\tif (JC_STRING(jso)->len < 0)\n\t\tfree(JC_STRING(jso)->c_string.pdata);\n\tjson_object_generic_delete(jso);",
+  "\tif (JC_STRING(jso)->len <= 0)\n\t\tfree(JC_STRING(jso)->c_string.pdata);\n\tjson_object_generic_delete(jso);", needle="C11.R1")
+M("c11-positive-len-with-pdata", "C11", "json_object.c",
+  "\t\tJC_STRING(jso)->c_string.pdata = dstbuf;\n\t\tnewlen = -(ssize_t)len;", "\t\tJC_STRING(jso)->c_string.pdata = dstbuf;\n\t\tnewlen = (ssize_t)len;", needle="C11")
+M("c11-equal-strlen", "C11", "json_object.c",
+  "\t\t               _json_object_get_string_len(JC_STRING(jso1))) == 0);", "\t\t               strlen(get_string_component(jso1))) == 0);", needle="C11.R6")
+M("c11-ctor-short-alloc", "C11", "json_object.c",
+  "\tobjsize = (sizeof(*jso) - sizeof(jso->c_string)) + len + 1;", "\tobjsize = (sizeof(*jso) - sizeof(jso->c_string)) + len;", needle="C11.R5c")
+M("c11-benign-order", "C11", "json_object.c",
+  "\t\tJC_STRING(jso)->c_string.pdata = dstbuf;\n\t\tnewlen = -(ssize_t)len;", "\t\tnewlen = -(ssize_t)len;\n\t\tJC_STRING(jso)->c_string.pdata = dstbuf;", expect="silent")
+
 
 def sh(cmd, **kw):
     return subprocess.run(cmd, shell=isinstance(cmd, str), stdout=subprocess.PIPE, stderr=subprocess.STDOUT, text=True, **kw)
